@@ -205,7 +205,49 @@ def rule_params_forwarded_(ctx: Ctx, rep: Report) -> None:
     rule_params_forwarded(ctx, rep, "C02.params_forwarded", ('btclib.ecc.dsa', 'btclib.ecc.bms', 'btclib.ecc.rfc6979'), 60)
 
 
+def rule_raw_argument_(ctx: Ctx, rep: Report) -> None:
+    """C02.raw_argument: verification answers for every accepted spelling of its arguments (C04.raw_argument, read for the ECDSA modules)."""
+    from rules import C04
+    tmp = Report("C04", rep.tier)
+    tmp.quiet = True
+    C04.rule_raw_argument(ctx, tmp)
+    for o in tmp.obs:
+        if o.instance.startswith("btclib.ecc.dsa") or o.instance.startswith("btclib.ecc.bms"):
+            rep.ob("C02.raw_argument", o.instance, o.held, o.site, o.detail)
+    rep.floor("C02.raw_argument", 1)
+
+
+def rule_one_comparator(ctx: Ctx, rep: Report) -> None:
+    """C02.one_comparator: "high s" is `s > n // 2` -- strictly -- everywhere it is
+    asked, in the ECDSA module and in the script engine's signature fix-up:
+    n is odd, so n // 2 itself is the largest *low* s, and a site that says
+    `>=` flips (or refuses) a signature the other sites, and libsecp256k1,
+    take as it is. Every comparison against `<curve>.n // 2` in the package
+    is collected and must read `x > n // 2` (or `n // 2 < x`)."""
+    rule = "C02.one_comparator"
+    n = 0
+    for fi in sorted(ctx.prog.functions.values(), key=lambda f: f.qualname):
+        for c in own_nodes(fi.node):
+            if not (isinstance(c, ast.Compare) and len(c.ops) == 1):
+                continue
+            l, r = c.left, c.comparators[0]
+            half = lambda e: isinstance(e, ast.BinOp) and isinstance(e.op, (ast.FloorDiv, ast.RShift)) and str(norm(e.left)).endswith(".n") and ctx.fold(e.right, fi.module) in (2, 1)  # noqa: E731
+            if half(r):
+                op = type(c.ops[0])
+            elif half(l):
+                op = {ast.Lt: ast.Gt, ast.LtE: ast.GtE, ast.Gt: ast.Lt, ast.GtE: ast.LtE}.get(type(c.ops[0]), type(c.ops[0]))
+            else:
+                continue
+            n += 1
+            ok = op in (ast.Gt, ast.LtE)  # "is high": >, "is low": <=
+            rep.ob(rule, f"{fi.qualname}:{norm(c)}", ok, fi.where(c), "strict: n // 2 is a low s" if ok else
+                   f"`{norm(c)}` puts s = n // 2 on the other side of the line from every other site: the largest low s is treated as high")
+    rep.floor(rule, 5)
+
+
 RULES = [
+    ("C02.one_comparator", rule_one_comparator),
+    ("C02.raw_argument", rule_raw_argument_),
     ("C02.params_forwarded", rule_params_forwarded_),
     ("C02.own_fields", rule_own_fields),
     ("C02.dispatch_hf", rule_dispatch_hf),
@@ -222,6 +264,8 @@ RULES = [
 ]
 
 CONTROLS = [
+    {"rule": "C02.one_comparator", "name": "the engine flips s = n // 2", "module": "btclib.script.engine.script",
+     "edit": lambda ctx: M.sub_expr(ctx, "btclib.script.engine.script.fix_signature", M.is_text("sig.s > sig.ec.n // 2"), "sig.s >= sig.ec.n // 2")},
     {"rule": "C02.own_fields", "name": "Signer.sign_ computes the challenge under the default hash", "module": D,
      "edit": lambda ctx: M.sub_expr(ctx, f"{D}.Signer.sign_", M.is_text("challenge_(msg_hash, self._ec, self._hf)"), "challenge_(msg_hash, self._ec)")},
     {"rule": "C02.dispatch_hf", "name": "sign_ asks the bindings without the hash function", "module": D,
